@@ -101,9 +101,9 @@ func (r *DailyRotateRule) OutdatedFiles() []string {
 
 	var pattern string
 	if r.gzip {
-		pattern = fmt.Sprintf("%s%s*%s", r.filename, r.delimiter, gzipExt)
+		pattern = fmt.Sprintf("%s%s*%s", globEscape(r.filename), globEscape(r.delimiter), gzipExt)
 	} else {
-		pattern = fmt.Sprintf("%s%s*", r.filename, r.delimiter)
+		pattern = fmt.Sprintf("%s%s*", globEscape(r.filename), globEscape(r.delimiter))
 	}
 
 	files, err := filepath.Glob(pattern)
@@ -170,11 +170,11 @@ func (r *SizeLimitRotateRule) OutdatedFiles() []string {
 
 	var pattern string
 	if r.gzip {
-		pattern = fmt.Sprintf("%s%s%s%s*%s%s", dir, string(filepath.Separator),
-			prefix, r.delimiter, ext, gzipExt)
+		pattern = fmt.Sprintf("%s%s%s%s*%s%s", globEscape(dir), string(filepath.Separator),
+			globEscape(prefix), globEscape(r.delimiter), globEscape(ext), gzipExt)
 	} else {
-		pattern = fmt.Sprintf("%s%s%s%s*%s", dir, string(filepath.Separator),
-			prefix, r.delimiter, ext)
+		pattern = fmt.Sprintf("%s%s%s%s*%s", globEscape(dir), string(filepath.Separator),
+			globEscape(prefix), globEscape(r.delimiter), globEscape(ext))
 	}
 
 	files, err := filepath.Glob(pattern)
@@ -444,6 +444,19 @@ func gzipFile(file string) error {
 	}
 
 	return os.Remove(file)
+}
+
+// globEscape 转义 filepath.Glob 的元字符，使日志路径本身只按字面匹配。
+func globEscape(s string) string {
+	var buf strings.Builder
+	for i := 0; i < len(s); i++ {
+		switch s[i] {
+		case '*', '?', '[', '\\':
+			buf.WriteByte('\\')
+		}
+		buf.WriteByte(s[i])
+	}
+	return buf.String()
 }
 
 func getNowDateInRFC3339Format() string {
